@@ -517,16 +517,29 @@ func (n *Node) CheckLayout(id uint64, want []FileSt) (string, error) {
 	for i := range got {
 		mt := ClockTime(want[i].Mt)
 		if err := os.Chtimes(got[i].Path, mt, mt); err != nil {
+			if os.IsNotExist(err) {
+				return "", &FileMissingError{Path: got[i].Path}
+			}
 			return "", err
 		}
 		if got[i].Tomb {
 			tt := ClockTime(want[i].Tmt)
 			if err := os.Chtimes(got[i].TombPath, tt, tt); err != nil {
+				if os.IsNotExist(err) {
+					return "", &FileMissingError{Path: got[i].TombPath}
+				}
 				return "", err
 			}
 		}
 	}
 	return "", nil
+}
+
+// FileMissingError: a file the shard's file store lists as live does not exist in the shard directory.
+type FileMissingError struct{ Path string }
+
+func (e *FileMissingError) Error() string {
+	return "file store lists " + filepath.Base(e.Path) + " but the file is not in the shard directory"
 }
 
 // Read returns the logical content of the shard through Shard.CreateIterator: every series, both fields.
